@@ -316,8 +316,14 @@ class SrvPool:
                 with open(wrap, "w") as f:
                     f.write('#!/bin/bash\nulimit -v %d\nexec %s "$@"\n' % (MEMLIMIT_KB, self.ego))
                 os.chmod(wrap, 0o755)
-            self.srv = egosrv.Server(self.sd, wrap, name="srv-c07-%d-%d" % (self.no, self.gen))
-            self.srv.start()
+            for attempt in (1, 2, 3):          # a saturated machine starts processes slowly: generous wait, and again
+                self.srv = egosrv.Server(self.sd, wrap, name="srv-c07-%d-%d-%d" % (self.no, self.gen, attempt))
+                try:
+                    self.srv.start(wait=60 + 25 * load_factor())
+                    break
+                except vf.NoVerdict:
+                    if attempt == 3:
+                        raise
             self.tok = self.srv.logon("admin", "secret")
             if not self.tok:
                 raise vf.NoVerdict("cannot log on to the scratch server")
